@@ -154,16 +154,62 @@ Fixpoint corr_long (rs : rsrc) (c : config) (e : engine) (steps : list (bytes * 
     if resp_ok_gen (negb tn) r (Some (snap_of (v_st (e_v e')) (v_ca (e_v e')))) (new_events lg0 (v_log (e_v e'))) o
     then corr_long rs c e' steps' (k + 1) else k
   end.
+(* ---- what the CBOR library does to a stored session (K-C07-utf8) ------------------------------------
+   persist.Serialize writes Go strings (cache values and keys, LastValue, ExecPath entries, the language
+   code) as CBOR TEXT strings without looking at them; fxamacker/cbor's decoder refuses a text string that
+   is not valid UTF-8.  A stored session that holds such a string can therefore be saved but not loaded:
+   Persister.Load fails, DefaultEngine.setupPersist takes the failure for "new session" and saves a fresh
+   one over the record.  The engine model (request_persisted) knows nothing of encodings; the
+   correspondence applies the library's behaviour around it: an undecodable record is no record. *)
+Fixpoint valid_utf8 (b : bytes) : bool :=
+  match b with
+  | [] => true
+  | x :: r =>
+    if x <? 128 then valid_utf8 r
+    else match r with
+    | [] => false
+    | y :: r2 =>
+      let cont z := (128 <=? z) && (z <=? 191) in
+      if (194 <=? x) && (x <=? 223) then cont y && valid_utf8 r2
+      else match r2 with
+      | [] => false
+      | z :: r3 =>
+        if x =? 224 then (160 <=? y) && (y <=? 191) && cont z && valid_utf8 r3
+        else if ((225 <=? x) && (x <=? 236)) || (x =? 238) || (x =? 239) then cont y && cont z && valid_utf8 r3
+        else if x =? 237 then (128 <=? y) && (y <=? 159) && cont z && valid_utf8 r3
+        else match r3 with
+        | [] => false
+        | w :: r4 =>
+          if x =? 240 then (144 <=? y) && (y <=? 191) && cont z && cont w && valid_utf8 r4
+          else if (241 <=? x) && (x <=? 243) then cont y && cont z && cont w && valid_utf8 r4
+          else if x =? 244 then (128 <=? y) && (y <=? 143) && cont z && cont w && valid_utf8 r4
+          else false
+        end
+      end
+    end
+  end.
+Definition snap_decodable (sn : snapshot) : bool :=
+  let '(s, c) := sn in
+  forallb valid_utf8 (s_path s)
+  && match s_lang s with Some l => valid_utf8 l | None => true end
+  && forallb (forallb (fun kv => valid_utf8 (fst kv) && valid_utf8 (snd kv))) (c_frames c)
+  && forallb (fun kv => valid_utf8 (fst kv)) (c_sizes c)
+  && valid_utf8 (c_last c).
+Definition loadable (st : option snapshot) : option snapshot :=
+  match st with Some sn => if snap_decodable sn then Some sn else None | None => None end.
+
 Fixpoint corr_pers (rs : rsrc) (c : config) (p : pworld) (steps : list (bytes * eobs)) (k : N) : N :=
   match steps with
   | [] => 0
   | (input, o) :: steps' =>
     let lg0 := pw_log p in
+    let p := mkPw (loadable (pw_store p)) (pw_w p) (pw_log p) (pw_taint p) in
     let '(p', r) := request_persisted efuel rs c (untaint_p p) input in
     (* every request has an engine of its own: a taint cannot outlive its request *)
     let tn := pw_taint p' && negb (exec_failed (r_exec r)) in
     if (tn && taint_stops c) || is_fuel (r_exec r) || is_ffuel (r_flush r) then 0 else
-    if resp_ok_gen (negb tn) r (pw_store p') (new_events lg0 (pw_log p')) o
+    (* the harness observes the stored session by loading it: an undecodable record shows as none *)
+    if resp_ok_gen (negb tn) r (loadable (pw_store p')) (new_events lg0 (pw_log p')) o
     then corr_pers rs c p' steps' (k + 1) else k
   end.
 
